@@ -791,7 +791,13 @@ func paramOf(fn *ssa.Function, i int) *ssa.Parameter {
 	return fn.Params[i+off]
 }
 
-func oIsValue(v ssa.Value) OPred { return func(o Origin) bool { return o.V == v } }
+// oIsValue: the origin is the value v itself (for an Extract: that result of that call).
+func oIsValue(v ssa.Value) OPred {
+	if ex, ok := v.(*ssa.Extract); ok {
+		return func(o Origin) bool { return o.V == ex.Tuple && o.Index == ex.Index }
+	}
+	return func(o Origin) bool { return o.V == v }
+}
 
 // oFieldLoad: origin is a load of field `field` of struct type named (pkg.typ) - either *(&x.f) or x.f.
 func oFieldLoad(typeName, field string, base VPred) OPred {
